@@ -130,7 +130,7 @@ impl Shard {
             Ok(Err(e)) => return Err(format!("{e}")),
             Ok(Ok(u)) => u,
         };
-        let fixed = FixedArea { base: self.fixed_mem, reg_fd: self.reg_fd };
+        let fixed = FixedArea { base: self.fixed_mem };
         let slices: Vec<IoSliceMut> =
             (0..N_FIXED).map(|i| IoSliceMut::new(unsafe { std::slice::from_raw_parts_mut(fixed.slot(i), FIXED_SLOT) })).collect();
         if let Err(e) = unsafe { io_uring_register_buffers(uring.fd, &slices) } {
@@ -150,6 +150,7 @@ pub struct Got {
     pub wait_ns: u128,
     /// the kernel took the batch in more than one call (an entry was rejected at preparation)
     pub partial: bool,
+    pub sq_full_waits: u32,
 }
 
 fn reap(ring: &mut IoUring, out: &mut Vec<(u64, i32)>, cap: usize) {
@@ -168,7 +169,19 @@ pub fn submit_and_reap(rs: &mut RingState, sqes: Vec<Sqe>) -> Got {
     let sqpoll = is_sqpoll(rs.flags);
     let ring = rs.uring.as_mut().expect("ring");
     for (i, s) in sqes.into_iter().enumerate() {
-        match ring.get_next_sqe_slot() {
+        let mut slot = ring.get_next_sqe_slot();
+        if slot.is_none() && sqpoll {
+            // On an SQPOLL ring the kernel thread publishes the consumed SQ head only after it has issued the
+            // entries, so completions can be visible while the queue still looks full: "full" is a legitimate
+            // answer there and the caller waits (bounded here).
+            let t = std::time::Instant::now();
+            while slot.is_none() && t.elapsed().as_millis() < 2000 {
+                std::thread::yield_now();
+                slot = ring.get_next_sqe_slot();
+            }
+            g.sq_full_waits += 1;
+        }
+        match slot {
             Some(p) => unsafe { p.write(s) },
             None => {
                 g.problem = Some(("slot-refused", format!("get_next_sqe_slot() = None for entry {i} of {n} on a ring of {} entries with nothing in flight", rs.entries)));
